@@ -100,17 +100,16 @@ def specVerdict (keys : List SortKey) (a : List WRow) (limit offset : Option Nat
 /-- what the model says for answer `a` given in the order `sort_rows` receives it; `exactOrder = false`
     when that order is unknown (end-to-end), in which case the result is only determined if no two rows tie. -/
 def modelOut (keys : List SortKey) (a : List WRow) (limit offset : Option Nat) (impl : String) (orderKnown : Bool) : String :=
-  let lawful := keys.isEmpty || lawfulRows keys a
+  -- the closure is a total preorder on all rows (Lemmas.WireOrder), so the stable sorted permutation is
+  -- determined by the input order; when that order is unknown (end-to-end) only if no two rows tie
   let tieFree := a.all (fun x => a.all (fun y => x == y || rowCmp keys x y != .eq))
-  let determined := if orderKnown then (decide (a.length ≤ 20) || lawful) else (lawful && tieFree && !keys.isEmpty)
+  let determined := orderKnown || (tieFree && !keys.isEmpty)
   if determined then
     let (t, p) := queryPage a keys limit offset
     pageOut t p
   else
-    -- `sort_by` with an inconsistent comparator on more than 20 elements (or an unknown input order):
-    -- unspecified order or a panic; the result must still be a slice-sized sub-multiset of the input
-    if impl == "panic" then "panic"
-    else match parsePage impl with
+    -- unknown input order with ties: any stable outcome; the result must be a slice-sized sub-multiset
+    match parsePage impl with
       | some (total, page) =>
         if total == a.length && page.length == wantLen a.length limit offset && (subMultiset page a).isSome then impl
         else "unspecified-order-but-not-a-permutation-slice"
